@@ -106,6 +106,13 @@ type FuncSpec struct {
 	ErrElse      bool                // `a, b, err := f(..); if err != nil {..} else {..}`: the else block is the success branch
 	NestedUpdate bool                // `a.B.C = e`  ->  let a := { a with B := { a.B with C := e } }
 	WorldType    string              // Writer functions: Lean type of the threaded world ("World" when empty)
+	// (translate_ext.go) InitResults: named results are zero-initialised before the body (zero values from ZeroOf / zeroValues) and a
+	// naked `return` yields them; ZeroOf: Go type text -> Lean zero value of `var x T` / named results; HardErr: callee whose T-typed
+	// errors travel in its ok-value (see WrapBoth) -> Lean function turning its result into the strict (T, error) reading that a plain
+	// `if err != nil` check denotes
+	InitResults bool
+	ZeroOf      map[string]string
+	HardErr     map[string]string
 }
 
 // StructLit: `&pkg.T{K: V, ...}` becomes `({ K := V, ... } : Lean)`, restricted to the fields in Keep.
@@ -149,6 +156,9 @@ type tr struct {
 	loopDepth   int             // inside the body of a generically translated range loop (returns become `some …`)
 	loop        int             // > 0: inside the body of a Go.forFirst loop (returns are wrapped in `some`)
 	rt          string          // Lean result type of the function being translated
+	breakK      []cont          // (translate_ext.go) continuations of the enclosing switch statements: where `break` goes
+	funcVals    map[string]bool // (translate_ext.go) local variables holding a method / function value
+	results     []string        // (translate_ext.go) names of the named results (InitResults)
 }
 
 func (t *tr) declareFields(fl *ast.FieldList) {
@@ -774,6 +784,9 @@ func (t *tr) call(c *ast.CallExpr) string {
 		if r, ok := t.spec.Rename[id.Name+"()"]; ok { // function-typed value: rename gives the application head
 			return "(" + r + " " + a + ")"
 		}
+		if t.funcVals[id.Name] { // local variable holding a method value: applied as it is (no clock argument)
+			return "(" + t.ident(id.Name) + " " + a + ")"
+		}
 		if a == "" {
 			return "(" + id.Name + " now)"
 		}
@@ -966,6 +979,9 @@ func (t *tr) ret(r *ast.ReturnStmt) string {
 }
 
 func (t *tr) ret0(r *ast.ReturnStmt) string {
+	if len(r.Results) == 0 && t.spec.InitResults {
+		return t.nakedReturn(r) // named results (translate_ext.go)
+	}
 	if t.spec.Ret == RetVal && len(r.Results) == 0 && t.spec.RetParam != "" {
 		return t.spec.RetParam
 	}
@@ -1224,6 +1240,9 @@ func (t *tr) block(stmts []ast.Stmt, k cont) string {
 				if z, ok := zeroValues[exprString(vs.Type)]; ok && zero == "" {
 					zero = z
 				}
+				if z, ok := t.spec.ZeroOf[exprString(vs.Type)]; ok && zero == "" {
+					zero = z
+				}
 				if zero == "" {
 					continue
 				}
@@ -1442,7 +1461,7 @@ func (t *tr) block(stmts []ast.Stmt, k cont) string {
 					t.errInScope = saved
 					zb := t.zeroBind(ifs.Body, exprString(x.Lhs[0]))
 					t.indent--
-					return "(match " + t.expr(call) + " with\n" + t.pad() + "| " + t.wpat(call, ".error err") + " => " + zb + errBranch + "\n" + t.pad() + "| " + t.wpat(call, ".ok "+t.okPattern(call, v)) + " =>\n" + t.pad() + post + t.takePost() + cont() + ")"
+					return "(match " + t.hardErr(call) + " with\n" + t.pad() + "| " + t.wpat(call, ".error err") + " => " + zb + errBranch + "\n" + t.pad() + "| " + t.wpat(call, ".ok "+t.okPattern(call, v)) + " =>\n" + t.pad() + post + t.takePost() + cont() + ")"
 				}
 			}
 			if ok && len(stmts) > 1 && t.spec.ErrNilFirst {
@@ -1460,6 +1479,9 @@ func (t *tr) block(stmts []ast.Stmt, k cont) string {
 					t.indent--
 					return "(match " + t.expr(call) + " with\n" + t.pad() + "| .ok " + t.okPattern(call, v) + " =>\n" + t.pad() + post + t.takePost() + okBranch + "\n" + t.pad() + "| .error err =>\n" + t.pad() + errBranch + ")"
 				}
+			}
+			if out, ok := t.assignExt(x, stmts, k); ok {
+				return out
 			}
 			return t.bad("two-value assignment without error check", x)
 		}
@@ -1562,6 +1584,9 @@ func (t *tr) block(stmts []ast.Stmt, k cont) string {
 				return "let " + b + " := " + t.expr(x.Rhs[0]) + ";\n" + t.pad() + post + rest()
 			}
 			return "let " + t.ident(exprString(x.Lhs[0])) + " := " + t.expr(x.Rhs[0]) + ";\n" + t.pad() + rest()
+		}
+		if out, ok := t.assignExt(x, stmts, k); ok {
+			return out
 		}
 		return t.bad("assignment", x)
 	case *ast.IfStmt:
@@ -1738,6 +1763,9 @@ func (t *tr) block(stmts []ast.Stmt, k cont) string {
 		}
 		return t.bad("range loop", x)
 	}
+	if out, ok := t.stmtExt(s, stmts, k); ok {
+		return out
+	}
 	return t.bad(fmt.Sprintf("statement %T", s), s)
 }
 
@@ -1860,6 +1888,8 @@ func (t *tr) switchStmt(s *ast.SwitchStmt, cont cont) string {
 	if s.Tag != nil {
 		tag = t.expr(s.Tag)
 	}
+	t.breakK = append(t.breakK, cont) // `break` inside a case leaves the switch (translate_ext.go)
+	defer func() { t.breakK = t.breakK[:len(t.breakK)-1] }()
 	var def *ast.CaseClause
 	var out strings.Builder
 	closers := 0
@@ -1926,6 +1956,7 @@ func translateFunc(fset *token.FileSet, fd *ast.FuncDecl, spec *FuncSpec) (strin
 		}
 	}
 	t := &tr{spec: spec, fset: fset, indent: 1, fresh: map[string]bool{}, declared: map[string]bool{}, rt: "(" + rt + ")"}
+	t.funcVals = map[string]bool{}
 	t.declareFields(fd.Recv)
 	t.declareFields(fd.Type.Params)
 	t.declareFields(fd.Type.Results)
@@ -1937,7 +1968,9 @@ func translateFunc(fset *token.FileSet, fd *ast.FuncDecl, spec *FuncSpec) (strin
 	if spec.Ret == RetWrites {
 		k = func() string { return "[]" } // a handler may fall off its end
 	}
+	inits := t.initResults(fd) // "" unless spec.InitResults (translate_ext.go)
 	body := t.block(fd.Body.List, k)
+	body = inits + body
 	pos := fset.Position(fd.Pos())
 	var b strings.Builder
 	fmt.Fprintf(&b, "/-- translated from %s:%d `%s` -/\n", relPath(pos.Filename), pos.Line, spec.Name)
